@@ -160,6 +160,43 @@ def check_S3(ctx, facts):
         calls = list(body.calls())
         sync = [(b, t) for b, t in calls if cname(t) == P + 'begin_keyspace_sync']
         setk = [(b, t) for b, t in calls if cname(t) == P + 'KeyspaceTracker::set_keyspace']
+        if len(sync) == 1 and not setk:
+            # the recording written differently (a method of another private type, inlined at load, or the container written in place): by role —
+            # every call that RECEIVES the peer's change stamp (the `last_updated` of the listed change) together with something it can write
+            # to (a workspace method, or an inserting / pushing container call)
+            lu = set()
+            kd_ = facts.adts.get(P + 'KeyspaceDiff')
+            lu_ix = [i for i, f in enumerate(kd_['variants'][0]['fields']) if f['name'] == 'last_updated'] if kd_ else []
+
+            def is_lu(pl):
+                return bool(pl and lu_ix and pl['p'] and isinstance(pl['p'][-1], dict) and pl['p'][-1].get('f') == lu_ix[0]
+                            and (strip_generics(pl['p'][-2]['ty']) if len(pl['p']) > 1 and isinstance(pl['p'][-2], dict) and 'ty' in pl['p'][-2]
+                                 else strip_generics(body.local_ty(pl['l']).lstrip('&').replace('mut ', '').strip())) == P + 'KeyspaceDiff')
+            for _b, _j, s_ in body.assigns():
+                for o in rv_operands(s_['rv']):
+                    if is_lu(op_place(o)):
+                        lu |= flow.forward([s_['lhs']['l']], stop=[0])
+            for _b, t_ in calls:
+                for o in t_['args']:
+                    if is_lu(op_place(o)):
+                        lu.add(-1 - id(t_))
+            # (taint closure through every call: the stamp may be wrapped — AtomicCell::new, Arc::new, a tuple — before it is stored)
+            for _round in range(6):
+                grew = False
+                for _b, t_ in calls:
+                    if not t_['dest']['p'] and t_['dest']['l'] not in lu and any(op_local(a) in lu for a in t_['args']):
+                        lu |= flow.forward([t_['dest']['l']], stop=[0])
+                        grew = True
+                if not grew:
+                    break
+            WR = re.compile(r'::(insert|push|push_back|extend|entry|or_insert|or_insert_with|replace|set|store|put|insert_unique_unchecked)$')
+            for b_, t_ in calls:
+                n_ = cname(t_) or ''
+                direct = (-1 - id(t_)) in lu
+                if not (direct or any(op_local(a) in lu for a in t_['args'])):
+                    continue
+                if (n_.startswith(EC) and n_ != P + 'begin_keyspace_sync') or WR.search(n_):
+                    setk.append((b_, t_))
         good = len(sync) == 1 and len(setk) >= 1
         if good:
             re_ = ResultEdges(body, flow, sync[0][0])
